@@ -188,6 +188,93 @@ def opValidate (toks : List String) : String :=
     | _ => "bad-focus"
   | _ => "bad-args"
 
+/-- a pattern term: `?name` or a term token -/
+def parsePTerm (tok : String) : Option PTerm :=
+  if tok.startsWith "?" then some (.var (unescape (tok.drop 1).toString)) else (parseTerm tok).map .const
+
+/-- `<n> (s p o)*` -/
+def parsePats : Nat → List String → List TPat → Option (List TPat × List String)
+  | 0, rest, acc => some (acc.reverse, rest)
+  | n+1, a :: b :: c :: rest, acc =>
+    match parsePTerm a, parsePTerm b, parsePTerm c with
+    | some s, some p, some o => parsePats n rest (⟨s, p, o⟩ :: acc)
+    | _, _, _ => none
+  | _, _, _ => none
+
+def parsePatList : List String → Option (List TPat × List String)
+  | n :: rest => match n.toNat? with
+    | some k => parsePats k rest []
+    | none => none
+  | [] => none
+
+/-- `<k> (usesThis head body notExists)*` -/
+def parseConstructs : Nat → List String → List Construct → Option (List Construct × List String)
+  | 0, rest, acc => some (acc.reverse, rest)
+  | n+1, ut :: rest, acc =>
+    match parsePatList rest with
+    | some (head, rest1) => match parsePatList rest1 with
+      | some (body, rest2) => match parsePatList rest2 with
+        | some (ne, rest3) => parseConstructs n rest3 (⟨head, body, ne, ut = "1"⟩ :: acc)
+        | none => none
+      | none => none
+    | none => none
+  | _, _, _ => none
+
+/-- `CON n (rulenode k constructs…)*` -/
+def parseCon : Nat → List String → List (Term × List Construct) → Option (List (Term × List Construct) × List String)
+  | 0, rest, acc => some (acc, rest)
+  | n+1, r :: k :: rest, acc =>
+    match parseTerm r, k.toNat? with
+    | some rn, some kk => match parseConstructs kk rest [] with
+      | some (cs, rest') => parseCon n rest' ((rn, cs) :: acc)
+      | none => none
+    | _, _ => none
+  | _, _, _ => none
+
+def tripleStr (t : Triple) : String := termStr t.s ++ " " ++ termStr t.p ++ " " ++ termStr t.o
+
+/-- `rules iterate=<0|1> then=<0|1> <opts…> FOCUS <terms> SHAPES <terms> SG <graph> DG <graph> RX <n> … CON <n> …`
+    → the expanded graph; with `then=1` followed by the outcome of validating it (advanced mode) -/
+def opRules' (iterate thenValidate : Bool) (toks : List String) : String :=
+  let (o, rest) := parseOpts toks
+  match rest with
+  | "FOCUS" :: rest =>
+    match parseTermList rest with
+    | some (focus, "SHAPES" :: rest) =>
+      match parseTermList rest with
+      | some (useShapes, "SG" :: rest) =>
+        match parseGraph rest with
+        | some (sg, "DG" :: rest) =>
+          match parseGraph rest with
+          | some (dg, "RX" :: n :: rest) =>
+            match parseRx (n.toNat?.getD 0) rest [] with
+            | some (tbl, "CON" :: k :: rest) =>
+              match parseCon (k.toNat?.getD 0) rest [] with
+              | some (con, _) =>
+                let conf := fun (r : Term) => ((con.find? (fun e => e.1 = r)).map (·.2)).getD []
+                let sg' := sg ++ systemTriples.filter (· ∉ sg)
+                match runRules o iterate sg' (dedup dg) (rxOfTable tbl) focus useShapes conf with
+                | .error e => "err " ++ failStr e
+                | .ok g =>
+                  let gs := "ok " ++ toString g.length ++ String.join (g.map fun t => " " ++ tripleStr t)
+                  if !thenValidate then gs else
+                  match runValidate o sg' g (rxOfTable tbl) focus useShapes with
+                  | .error e => gs ++ " VAL err " ++ failStr e
+                  | .ok (conf, rs) => gs ++ " VAL ok " ++ (if conf then "1" else "0") ++ " " ++ toString rs.length ++
+                      String.join (rs.map fun r => " " ++ resultStr r)
+              | none => "bad-con"
+            | _ => "bad-rx"
+          | _ => "bad-dg"
+        | _ => "bad-sg"
+      | _ => "bad-shapes"
+    | _ => "bad-focus"
+  | _ => "bad-args"
+
+def opRules (toks : List String) : String :=
+  match toks with
+  | it :: th :: toks => opRules' (it = "iterate=1") (th = "then=1") toks
+  | _ => "bad-args"
+
 open Pyshacl.Pipeline in
 def objStr : Pipeline.Obj → String
   | .data => "data" | .ont => "ont" | .shapes => "shapes" | .fresh n => "fresh" ++ toString n
@@ -282,6 +369,7 @@ def step (line : String) : String :=
       | "history" => opHistory rest
       | "printpath" => opPrintPath rest
       | "inoculate" => opInoculate rest
+      | "rules" => opRules rest
       | _ => "bad-op"
     id ++ " " ++ out
   | _ => "? bad-line"
